@@ -67,10 +67,26 @@ def rule_text(rules, depth=0):
     return out
 
 
-def strip_inst(rules):
-    """rulebook JSON for the judges: without the enumeration helpers"""
-    return [{"pat": r["pat"], "kids": strip_inst(r["kids"]), "glob": r["glob"], "ign": r["ign"], "logic": r["logic"], "dl": r["dl"]}
-            for r in rules]
+def raw_rule(r):
+    """the rule's line as annet keys it (raw_rule): pattern and parameters, no indentation"""
+    return rule_text([dict(r, kids=[])])[0]
+
+
+def all_raw(rules):
+    out = []
+    for r in rules:
+        out.append(raw_rule(r))
+        out += all_raw(r["kids"])
+    return out
+
+
+def strip_inst(rules, ranks=None):
+    """rulebook JSON for the judges: without the enumeration helpers; rk = rank of the raw rule text (last component of annet's
+    patch sort key), used by the A-layer only"""
+    if ranks is None:
+        ranks = {t: k for k, t in enumerate(sorted(set(all_raw(rules))))}
+    return [{"pat": r["pat"], "kids": strip_inst(r["kids"], ranks), "glob": r["glob"], "ign": r["ign"], "logic": r["logic"], "dl": r["dl"],
+             "rk": ranks[raw_rule(r)]} for r in rules]
 
 
 class Catalog:
